@@ -8,18 +8,27 @@ From LV Require Export Cursor.CursorDefs.
 From LV Require Import Gen.Consts_C17.
 Local Open Scope Z_scope.
 
-(* destination rectangle, source origin, block size - what rfbScaledScreenUpdateRect computes with
-   rfbScaledCorrection and ScaleX/ScaleY before its loops *)
-Record geom : Type := mkgeom { gx1 : Z; gy1 : Z; gw1 : Z; gh1 : Z; gsx0 : Z; gsy0 : Z; gax : Z; gay : Z }.
+(* what rfbScaledScreenUpdateRect computes with rfbScaledCorrection and ScaleX/ScaleY before and in
+   its loops: destination rectangle (x1,y1,w1,h1), block size (areaX, areaY), and for every
+   destination offset i < w1 (j < h1) the source column (row) where its block starts [gsxs, gsys]
+   resp. of the pixel that is copied for colour maps [gcxs, gcys].
+   Code as it is: gsxs = [ScaleX(x1) + i*areaX], gcxs = [(x1+i)*areaX];
+   proposed repair notes/fix_C17_2.diff: both = [ScaleX(x1+i)] (ScaleF.upd_geomF). *)
+Record geom : Type := mkgeom { gx1 : Z; gy1 : Z; gw1 : Z; gh1 : Z; gax : Z; gay : Z;
+                               gsxs : list Z; gsys : list Z; gcxs : list Z; gcys : list Z }.
 
 (* `for (w < areaX) for (v < areaY) total += (pixel >> shift) & max` for destination offset (x,y) *)
 Definition block_sum (src : fb) (g : geom) (sh mx x y : Z) : option Z :=
-  iter_n (Z.to_nat (gax g)) 0 (fun w acc =>
-    iter_n (Z.to_nat (gay g)) 0 (fun v acc2 =>
-      match fb_get src (gsx0 g + x * gax g + w) (gsy0 g + y * gay g + v) with
-      | None => None
-      | Some p => Some (acc2 + Z.land (Z.shiftr p sh) mx)
-      end) acc) 0.
+  match zidx (gsxs g) x, zidx (gsys g) y with
+  | Some sx, Some sy =>
+    iter_n (Z.to_nat (gax g)) 0 (fun w acc =>
+      iter_n (Z.to_nat (gay g)) 0 (fun v acc2 =>
+        match fb_get src (sx + w) (sy + v) with
+        | None => None
+        | Some p => Some (acc2 + Z.land (Z.shiftr p sh) mx)
+        end) acc) 0
+  | _, _ => None
+  end.
 
 (* one destination pixel: per-channel totals / area2, packed *)
 Definition filter_px (fmt : pixfmt) (src : fb) (g : geom) (x y : Z) : option Z :=
@@ -45,9 +54,12 @@ Definition update_rect (truecolour : bool) (fmt : pixfmt) (g : geom) (src dst : 
   else if truecolour
   then paint (fun i j _ => match filter_px fmt src g i j with None => None | Some v => Some (Some v) end)
              (gx1 g) (gy1 g) (gw1 g) (gh1 g) dst
-  else paint (fun i j _ => match fb_get src ((gx1 g + i) * gax g) ((gy1 g + j) * gay g) with
-                           | None => None
-                           | Some p => Some (Some p)
+  else paint (fun i j _ => match zidx (gcxs g) i, zidx (gcys g) j with
+                           | Some cx, Some cy => match fb_get src cx cy with
+                                                 | None => None
+                                                 | Some p => Some (Some p)
+                                                 end
+                           | _, _ => None
                            end)
              (gx1 g) (gy1 g) (gw1 g) (gh1 g) dst.
 
